@@ -31,11 +31,21 @@ func safeRead(f func(io.Reader) (xsel.Cursor, error), r io.Reader) (c xsel.Curso
 
 func readXml(r io.Reader) (xsel.Cursor, error) { return xsel.ReadXml(r) }
 
+// readXmlEnt reads with the parse option the CLI's -e flag uses.
+func readXmlEnt(r io.Reader) (xsel.Cursor, error) {
+	return xsel.ReadXml(r, func(d *xml.Decoder) { d.Entity = map[string]string{"ent": "EV"} })
+}
+
 // xmlDetects answers one bit: does a bare encoding/xml decoder (same charset
 // reader) report an error before EOF on these bytes?
-func xmlDetects(data []byte) bool {
+func xmlDetects(data []byte) bool { return xmlDetectsEnt(data, false) }
+
+func xmlDetectsEnt(data []byte, ent bool) bool {
 	d := xml.NewDecoder(bytes.NewReader(data))
 	d.CharsetReader = charset.NewReaderLabel
+	if ent {
+		d.Entity = map[string]string{"ent": "EV"}
+	}
 	for {
 		_, err := d.Token()
 		if err == io.EOF {
@@ -71,6 +81,13 @@ func monitor(o *simkit.Outcome, prop, what string, c xsel.Cursor, err error, pan
 func XML(t *simkit.Tape, o *simkit.Outcome, full bool) {
 	const P = "C09"
 	cfg := model.DrawXMLConfig(t)
+	readXml := readXml
+	xmlDetects := xmlDetects
+	if cfg.Entities {
+		readXml = readXmlEnt
+		xmlDetects = func(b []byte) bool { return xmlDetectsEnt(b, true) }
+		o.Probe("custom-entity-option")
+	}
 	doc := model.GenXML(t, cfg)
 	ser := model.SerialiseXML(t, cfg, doc)
 	data := ser.Bytes
@@ -224,9 +241,10 @@ func XML(t *simkit.Tape, o *simkit.Outcome, full bool) {
 		}
 	}
 	// 6. two parsers alive with interleaved Pull calls
-	if t.Bool(1, 3) && (cfg.Encoding == "" || cfg.Encoding == "UTF-8") {
+	if t.Bool(1, 3) && !cfg.Entities && (cfg.Encoding == "" || cfg.Encoding == "UTF-8") {
 		cfg2 := model.DrawXMLConfig(t)
 		cfg2.Encoding = ""
+		cfg2.Entities = false
 		other := model.SerialiseXML(t, cfg2, model.GenXML(t, cfg2)).Bytes
 		interleavedParsers(t, o, P, "xml", data, other)
 	}
